@@ -595,13 +595,16 @@ def finalize(pid, tier, seed, results, t0, *, level='other', explanation='', bou
   nob = len(clauses)
   ndis = sum(1 for c in clauses if c['status'] == 'discharged')
   distinct = len({(c['task'], c['name'], json.dumps(c.get('config', {}), sort_keys=True, default=str)) for c in clauses
-                  if c.get('queries', 1) > 0})
+                  if c.get('queries', 1) > 0 or c.get('elements', 0) > 0})
+  solver_decided = sum(1 for c in clauses if c.get('queries', 0) > 0)
   cov = dict(
       explanation=explanation,
       obligations=nob, discharged=ndis,
       evaluations=stats.total(), distinct_nontrivial=distinct,
-      rule='one obligation = one clause of the property on one configuration, decided for all inputs in the '
-           'stated box by SMT queries; non-trivial = at least one solver query was issued for it',
+      rule='one obligation = one clause of the property on one configuration over symbolic inputs; distinct = distinct '
+           '(task, clause, configuration); non-trivial = it constrained at least one output element / issued at least one solver query '
+           '(obligations whose symbolic residual is identically zero need no query: see solver_decided_obligations)',
+      solver_decided_obligations=solver_decided,
       samples=stats.samples[:3] or [c for c in clauses[:2]],
       queries_by_logic=stats.by_logic, solver_time_s=round(stats.time, 3),
       solver_cross_checks=stats.cross[:8], solver_cross_check_count=len(stats.cross),
